@@ -79,6 +79,20 @@ func buildDirty(dir, good string, injs []injSpec) error {
 	for i, in := range injs {
 		ext, content := injection(in.kind, in.seed, good)
 		switch in.place {
+		case "middle":
+			// inside the good file, before its (seed mod n)-th document
+			docs := strings.Split(strings.TrimPrefix(goodFile, "---\n"), "---\n")
+			k := 0
+			if len(docs) > 0 {
+				k = in.seed % len(docs)
+			}
+			goodFile = ""
+			for j, d := range docs {
+				if j == k {
+					goodFile += "---\n" + strings.TrimRight(content, "\n") + "\n"
+				}
+				goodFile += "---\n" + d
+			}
 		case "append":
 			goodFile += "---\n" + content
 		case "nested":
@@ -165,18 +179,28 @@ func genBadDoc(r *Rng, id int, tier string) *Sx {
 	n := r.Range(1, 3)
 	appended := false
 	for i := 0; i < n; i++ {
-		in := injSpec{kind: Pick(r, injKinds), place: Pick(r, []string{"own", "own", "first", "nested", "append"}), seed: r.Intn(1000)}
-		if in.place == "append" {
+		in := injSpec{kind: Pick(r, injKinds), place: Pick(r, []string{"own", "own", "first", "nested", "append", "middle"}), seed: r.Intn(1000)}
+		if in.place == "middle" && i > 0 {
+			in.place = "own" // a document inside the good file comes alone (the model mirrors its effect exactly)
+		}
+		if in.place == "middle" && !map[string]bool{"truncate": true, "tabs": true, "notyaml": true, "configmap": true, "secret": true,
+			"crd-instance": true, "foreign-netpol": true, "scalar-doc": true}[in.kind] {
+			in.place = "own" // inside the good file: documents that are not YAML at all, or irrelevant ones
+		}
+		if in.place == "append" || in.place == "middle" {
 			if appended || in.kind == "emptyfile" || in.kind == "binary" {
 				in.place = "own"
 			}
-			appended = true
+			appended = true // at most one injection goes into the good file
 		}
 		in.class = classify(tmp, good, in, goodObjs)
 		if in.class == "accepted" || in.class == "ioerr" {
 			continue
 		}
 		c.Add(Ls(At("inj"), At(in.kind), At(in.place), Ai(int64(in.seed)), At(in.class)))
+		if in.place == "middle" {
+			break
+		}
 	}
 	return c
 }
